@@ -302,7 +302,7 @@ class Interp:
             self.cons.append(t[1] if v else z3.Not(t[1]))
             return v
         if isinstance(t, SymGroup):
-            return not self._decide("group-absent", t.index)
+            return self._decide("group-truthy", t.index)
         if isinstance(t, Sym):
             raise Unsupported("truth value of a number")
         return bool(t)
